@@ -40,31 +40,137 @@ def _dotted(n: ast.AST) -> str | None:
     return None
 
 
+def _coq_ident(s: str) -> str:
+    """Text safe inside a Coq string literal."""
+    return ''.join(ch if ch.isalnum() or ch in ' @._(),:=-+[]<>/' else '?' for ch in s)
+
+
 def _coq_str(s: str) -> str:
     return '[' + ';'.join(str(ord(c)) for c in s) + ']%N'
 
 
+# markers for the path parameter and os.path.join(self.path, path); they may only occur inside the abspath() call that is
+# the model's SAbs, anything else fails closed (the markers are not Coq terms)
+PATH_PARAM = '<path-parameter>'
+JOINED = '<join(self.path,path)>'
+
+
 class _Tr:
-    def __init__(self, where: str) -> None:
+    def __init__(self, where: str, helpers: dict | None = None, depth: int = 0) -> None:
         self.where = where
         self.env: dict[str, str] = {}      # local string variables -> sx text
+        # functions whose body may be read in place of a call: methods of RawFileSystem / FileSystem called as
+        # `self.name(...)`, module-level functions called as `name(...)` (helpers extracted from _resolve_path)
+        self.helpers: dict[str, ast.FunctionDef] = helpers or {}
+        self.depth = depth
+        # module-level NAME = 'literal' / NAME = os.sep, bound once (hoisted constants); kept under the key '=consts'
+        self.consts: dict[str, ast.AST] = (helpers or {}).get('=consts', {})    # type: ignore[assignment]
+
+    def assign(self, name: str, value: ast.AST) -> None:
+        """A local: a string expression, or a named boolean (`inside = a == b or a.startswith(c)`), kept as 'B:' + gx."""
+        try:
+            self.env[name] = self.sx(value)
+        except TranslateError as e1:
+            try:
+                self.env[name] = 'B:' + self.gx(value)
+            except TranslateError:
+                raise e1
+
+    def helper_call(self, n: ast.AST):
+        """(function, translator with the parameters bound to the translated arguments) when `n` is a call of a helper
+        whose body can be read in place of the call, else None."""
+        if not isinstance(n, ast.Call) or n.keywords or any(isinstance(a, ast.Starred) for a in n.args):
+            return None
+        f = n.func
+        if isinstance(f, ast.Attribute) and isinstance(f.value, ast.Name) and f.value.id == 'self':
+            key = 'self.' + f.attr
+        elif isinstance(f, ast.Name):
+            key = f.id
+        else:
+            return None
+        fn = self.helpers.get(key)
+        if fn is None:
+            return None
+        if self.depth >= 3:
+            self.fail(n, 'helpers nested too deeply (or recursive)')
+        decs = [_dotted(d.func if isinstance(d, ast.Call) else d) for d in fn.decorator_list]
+        if any(d not in NEUTRAL_DECORATORS for d in decs):
+            self.fail(n, f'helper {key} is decorated (something may answer in place of its body)')
+        a = fn.args
+        if a.vararg or a.kwarg or a.kwonlyargs or a.posonlyargs or a.defaults:
+            self.fail(n, f'helper {key} has a signature that is not read')
+        params = [x.arg for x in a.args]
+        if key.startswith('self.') and 'staticmethod' not in decs:
+            if not params or params[0] != 'self':
+                self.fail(n, f'helper {key} does not take self')
+            params = params[1:]
+        if len(params) != len(n.args):
+            self.fail(n, f'helper {key} called with {len(n.args)} arguments for {len(params)} parameters')
+        inner = _Tr(f'{self.where} -> {key}', self.helpers, self.depth + 1)
+        for prm, arg in zip(params, n.args):
+            inner.env[prm] = self.sx(arg)
+        return fn, inner
+
+    def run_body(self, fn: ast.FunctionDef, leaf):
+        """Path-condition execution of a helper body made of assignments of string expressions to locals, `if` / `else`
+        over boolean expressions and `return e`: list of (conditions on the path, leaf(e) under the locals of the path)."""
+        out: list[tuple[list[str], str]] = []
+
+        def block(stmts, conds):
+            for st in stmts:
+                if isinstance(st, ast.Expr) and isinstance(st.value, ast.Constant) or isinstance(st, ast.Pass):
+                    continue
+                if isinstance(st, (ast.Assign, ast.AnnAssign)):
+                    tg = st.targets if isinstance(st, ast.Assign) else [st.target]
+                    if len(tg) != 1 or not isinstance(tg[0], ast.Name) or st.value is None or tg[0].id == 'self':
+                        self.fail(st, 'assignment to something other than one local name')
+                    self.assign(tg[0].id, st.value)
+                elif isinstance(st, ast.If):
+                    g = self.gx(st.test)
+                    saved = dict(self.env)
+                    t_out = block(st.body, conds + [g])
+                    env_t, self.env = self.env, dict(saved)
+                    f_out = block(st.orelse, conds + [f'(GNot {g})'])
+                    if t_out is not None and f_out is not None:
+                        if env_t != self.env:
+                            self.fail(st, 'locals assigned differently in two branches that both continue')
+                    elif t_out is not None:
+                        conds, self.env = t_out, env_t
+                    elif f_out is not None:
+                        conds = f_out
+                    else:
+                        return None
+                elif isinstance(st, ast.Return) and st.value is not None:
+                    out.append((conds, leaf(st.value)))
+                    return None
+                else:
+                    self.fail(st, 'unrecognised statement in a helper')
+            return conds
+
+        if block(fn.body, []) is not None:
+            self.fail(fn, 'a path through the helper ends without return')
+        return out
 
     def fail(self, node: ast.AST, what: str):
         raise TranslateError(f'filesys.py:{getattr(node, "lineno", "?")}: {self.where}: {what}: `{ast.unparse(node)}`')
 
     def is_sep(self, n: ast.AST) -> bool:
+        if isinstance(n, ast.Name) and n.id not in self.env and n.id in self.consts:
+            return self.is_sep(self.consts[n.id])
         return _dotted(n) in ('os.sep', 'os.path.sep') or (isinstance(n, ast.Constant) and n.value == '/')
 
     def sx(self, n: ast.AST) -> str:
         d = _dotted(n)
-        if d == 'abs_path':
-            return 'SAbs'
         if d == 'self.path':
             return 'SRoot'
         if d in ('os.sep', 'os.path.sep'):
             return f'(SLit {_coq_str("/")})'
         if isinstance(n, ast.Name) and n.id in self.env:
+            if self.env[n.id].startswith('B:'):
+                self.fail(n, 'a boolean local used as a string')
             return self.env[n.id]
+        if isinstance(n, ast.Name) and n.id in self.consts:
+            return self.sx(self.consts[n.id])
         if isinstance(n, ast.Constant) and isinstance(n.value, str):
             return f'(SLit {_coq_str(n.value)})'
         if isinstance(n, ast.BinOp) and isinstance(n.op, ast.Add):
@@ -79,13 +185,25 @@ class _Tr:
                 a, b = (n.orelse, n.body) if neg else (n.body, n.orelse)
                 return f'(SIfEndsSep {self.sx(t.func.value)} {self.sx(a)} {self.sx(b)})'
             self.fail(n, 'conditional string whose test is not X.endswith(os.sep)')
+        hc = self.helper_call(n)
+        if hc is not None:
+            fn, inner = hc
+            paths = inner.run_body(fn, inner.sx)
+            if len(paths) != 1:
+                self.fail(n, 'string-valued helper with more than one return path')
+            return paths[0][1]
         if isinstance(n, ast.Call) and not n.keywords:
             f = n.func
             fd = _dotted(f)
             if isinstance(f, ast.Attribute) and f.attr == 'rstrip' and len(n.args) == 1 and self.is_sep(n.args[0]):
                 return f'(SRStrip {self.sx(f.value)})'
             if fd in ('os.path.join', 'posixpath.join') and len(n.args) == 2:
-                return f'(SJoin {self.sx(n.args[0])} {self.sx(n.args[1])})'
+                a, b = self.sx(n.args[0]), self.sx(n.args[1])
+                if a == 'SRoot' and b == PATH_PARAM:
+                    return JOINED                   # os.path.join(self.path, path): only meaningful under abspath
+                return f'(SJoin {a} {b})'
+            if fd in ('os.path.abspath', 'posixpath.abspath') and len(n.args) == 1 and self.sx(n.args[0]) == JOINED:
+                return 'SAbs'                       # the model's abs_path, whatever the local is called
             if fd in ('os.path.commonpath', 'posixpath.commonpath') and len(n.args) == 1 \
                     and isinstance(n.args[0], (ast.List, ast.Tuple)) and len(n.args[0].elts) == 2:
                 a, b = n.args[0].elts
@@ -103,6 +221,8 @@ class _Tr:
             return 'GFalse'
         if _dotted(n) == 'self.constrain_path':
             return 'GConstrain'
+        if isinstance(n, ast.Name) and self.env.get(n.id, '').startswith('B:'):
+            return self.env[n.id][2:]
         if isinstance(n, ast.UnaryOp) and isinstance(n.op, ast.Not):
             return f'(GNot {self.gx(n.operand)})'
         if isinstance(n, ast.BoolOp):
@@ -118,6 +238,15 @@ class _Tr:
             if isinstance(n.ops[0], ast.NotEq):
                 return f'(GNot (GEq {a} {b}))'
             self.fail(n, 'comparison operator other than == / !=')
+        hc = self.helper_call(n)
+        if hc is not None:
+            fn, inner = hc
+            paths = inner.run_body(fn, inner.gx)      # true iff some path is taken and returns true
+            terms = [_conj(conds + [leaf]) for conds, leaf in paths]
+            out = terms[-1]
+            for x in reversed(terms[:-1]):
+                out = f'(GOr {x} {out})'
+            return out
         if isinstance(n, ast.Call) and isinstance(n.func, ast.Attribute) and len(n.args) == 1 and not n.keywords:
             if n.func.attr == 'startswith':
                 return f'(GStarts {self.sx(n.func.value)} {self.sx(n.args[0])})'
@@ -126,63 +255,380 @@ class _Tr:
         self.fail(n, 'unrecognised boolean expression')
 
 
+# decorators that do not put anything between a caller and the function body (no cache, no wrapper that could answer
+# in its place); everything else on a method of the file-system classes is reported
+NEUTRAL_DECORATORS = {'classmethod', 'staticmethod', 'abstractmethod', 'abc.abstractmethod', 'overload', 'typing.overload',
+                      'override', 'typing.override', 'typing_extensions.override', 'final', 'typing.final',
+                      'typing_extensions.final', 'deprecated', 'typing_extensions.deprecated', 'warnings.deprecated'}
+FS_CLASSES = ('File', 'FileSystem', 'RawFileSystem', 'FileSystemChain')
+
+
+def wrapper_census(tree: ast.Module) -> list[tuple[str, str, str]]:
+    """Everything that can stand between a call of a method of File / FileSystem / RawFileSystem / FileSystemChain and
+    the body the translators read: (class, method, what).
+
+    * a decorator that is not in NEUTRAL_DECORATORS (functools.lru_cache, functools.cache, a home-made memoiser, property ...);
+    * a class-body statement that rebinds the name of a method (`_resolve_path = cache(_resolve_path)`), a second `def` of
+      the same name, `__getattr__` / `__getattribute__` / `__class_getitem__`-style hooks are not needed: only
+      `__getattribute__` and `__getattr__` can answer for an existing or missing method, both are reported;
+    * a statement anywhere in the module that assigns to, deletes or `setattr`s an attribute of one of the classes;
+    * a subclass of RawFileSystem defined in the module that redefines one of its methods."""
+    out: list[tuple[str, str, str]] = []
+    classes = {n.name: n for n in tree.body if isinstance(n, ast.ClassDef)}
+    for cname in FS_CLASSES:
+        cls = classes.get(cname)
+        if cls is None:
+            continue
+        seen: set[str] = set()
+        for st in cls.body:
+            if isinstance(st, (ast.FunctionDef, ast.AsyncFunctionDef)):
+                if st.name in seen:
+                    out.append((cname, st.name, 'defined twice in the class body'))
+                seen.add(st.name)
+                if st.name in ('__getattribute__', '__getattr__'):
+                    out.append((cname, st.name, 'attribute hook'))
+                for dec in st.decorator_list:
+                    d = _dotted(dec.func if isinstance(dec, ast.Call) else dec)
+                    if d not in NEUTRAL_DECORATORS:
+                        out.append((cname, st.name, f'decorator @{ast.unparse(dec)[:60]}'))
+        methods = {m for c in FS_CLASSES if c in classes for f in classes[c].body
+                   if isinstance(f, (ast.FunctionDef, ast.AsyncFunctionDef)) for m in [f.name]}
+        for st in cls.body:
+            if isinstance(st, (ast.Assign, ast.AugAssign)) or (isinstance(st, ast.AnnAssign) and st.value is not None):
+                for t in (st.targets if isinstance(st, ast.Assign) else [st.target]):
+                    for nm in ast.walk(t):
+                        if isinstance(nm, ast.Name) and nm.id in methods:
+                            out.append((cname, nm.id, f'rebound in the class body: {ast.unparse(st)[:60]}'))
+    for node in ast.walk(tree):
+        targets: list[ast.AST] = []
+        if isinstance(node, ast.Assign):
+            targets = list(node.targets)
+        elif isinstance(node, (ast.AugAssign, ast.AnnAssign)):
+            targets = [node.target]
+        elif isinstance(node, ast.Delete):
+            targets = list(node.targets)
+        for t in targets:
+            for sub in ast.walk(t):
+                if isinstance(sub, ast.Attribute) and isinstance(sub.value, ast.Name) and sub.value.id in FS_CLASSES:
+                    out.append((sub.value.id, sub.attr, f'attribute of the class assigned: {ast.unparse(node)[:60]}'))
+        if isinstance(node, ast.Call) and _dotted(node.func) in ('setattr', 'delattr') and node.args \
+                and isinstance(node.args[0], ast.Name) and node.args[0].id in FS_CLASSES:
+            out.append((node.args[0].id, ast.unparse(node.args[1])[:30] if len(node.args) > 1 else '?',
+                        f'{_dotted(node.func)} on the class'))
+    raw_methods = {f.name for f in classes['RawFileSystem'].body if isinstance(f, (ast.FunctionDef, ast.AsyncFunctionDef))} \
+        if 'RawFileSystem' in classes else set()
+    for cname, cls in classes.items():
+        if any(_dotted(b.value if isinstance(b, ast.Subscript) else b) == 'RawFileSystem' for b in cls.bases):
+            for f in cls.body:
+                if isinstance(f, (ast.FunctionDef, ast.AsyncFunctionDef)) and f.name in raw_methods and f.name != '__init__':
+                    out.append((cname, f.name, 'subclass of RawFileSystem redefines the method'))
+    return out
+
+
+IMMUTABLE_MAKERS = {'TypeVar', 'typing.TypeVar', 'typing_extensions.TypeVar', 'NewType', 'typing.NewType', 'frozenset', 'tuple',
+                    're.compile', 'struct.Struct', 'object', 'int', 'str', 'float', 'bool', 'bytes', 'ParamSpec',
+                    'typing.ParamSpec', 'typing_extensions.ParamSpec', 'Literal',
+                    # loggers carry no answers from one file system to another
+                    'logging.getLogger', 'get_logger', 'logger.get_logger', 'srctools.logger.get_logger'}
+
+
+def _immutable_value(v: ast.AST | None) -> bool:
+    """Can the object this expression makes never change (so sharing it between file systems carries no state)?"""
+    if v is None:
+        return True
+    if isinstance(v, ast.Constant):
+        return True
+    if isinstance(v, ast.Tuple):
+        return all(_immutable_value(e) for e in v.elts)
+    if isinstance(v, ast.UnaryOp):
+        return _immutable_value(v.operand)
+    if isinstance(v, ast.BinOp):
+        return _immutable_value(v.left) and _immutable_value(v.right)
+    if isinstance(v, ast.JoinedStr):
+        return True
+    if isinstance(v, ast.Call):
+        return _dotted(v.func) in IMMUTABLE_MAKERS
+    d = _dotted(v)
+    if d is not None:                      # alias of a constant of the standard library (os.sep, os.curdir ...)
+        return d.startswith(('os.', 'posixpath.', 'string.', 'sys.maxsize'))
+    if isinstance(v, ast.Subscript):       # typing aliases: Union[str, File], Optional[...]
+        return _dotted(v.value) in ('Union', 'Optional', 'typing.Union', 'typing.Optional', 'Literal', 'type', 'Callable')
+    return False
+
+
+def _local_names(fn: ast.AST) -> set[str]:
+    """Names bound inside a function (parameters, assignment / loop / with / except / comprehension / import targets),
+    without those it declares global or nonlocal."""
+    out: set[str] = set()
+    declared: set[str] = set()
+    a = fn.args
+    for p in a.posonlyargs + a.args + a.kwonlyargs + ([a.vararg] if a.vararg else []) + ([a.kwarg] if a.kwarg else []):
+        out.add(p.arg)
+    for n in ast.walk(fn):
+        if isinstance(n, ast.Name) and isinstance(n.ctx, (ast.Store, ast.Del)):
+            out.add(n.id)
+        elif isinstance(n, (ast.Global, ast.Nonlocal)):
+            declared.update(n.names)
+        elif isinstance(n, ast.ExceptHandler) and n.name:
+            out.add(n.name)
+        elif isinstance(n, ast.alias):
+            out.add((n.asname or n.name).split('.')[0])
+        elif isinstance(n, (ast.FunctionDef, ast.AsyncFunctionDef, ast.ClassDef)) and n is not fn:
+            out.add(n.name)
+    return out - declared
+
+
+def shared_state_census(tree: ast.Module) -> list[tuple[str, str, str]]:
+    """State that outlives one call and is visible to more than one file-system object: (where, name, what).
+
+    The theorems speak about one call of a method on one object whose answers depend on the object's root, its flag and
+    the arguments.  A table at module or class level (a hand-written memo of resolved paths, of existence answers, of
+    File handles) is shared between a constrained and an unconstrained system on the same folder exactly like the
+    lru_cache of seeded c18_4 (SM/PathMemo.v: key without the flag, refuted).  Reported, for the methods of File /
+    FileSystem / RawFileSystem / FileSystemChain and the module-level functions they call (transitively):
+    * a read or write of a module-level name bound to something that is not an immutable constant (dict / list / set
+      displays, comprehensions, calls other than TypeVar-like makers), or bound more than once;
+    * `global` / `nonlocal` declarations;
+    * a class-body assignment of such a value in one of the classes (`_seen: dict = {}`);
+    * a mutable default value of a parameter (`def _resolve_path(self, path, _memo={})`);
+    * state kept on function objects (`f.cache = ...`, `self.m.__func__...`) through an attribute store on a method name."""
+    out: list[tuple[str, str, str]] = []
+    classes = {n.name: n for n in tree.body if isinstance(n, ast.ClassDef)}
+    funcs = {n.name: n for n in tree.body if isinstance(n, (ast.FunctionDef, ast.AsyncFunctionDef))}
+    # module-level bindings by assignment
+    bound: dict[str, list[ast.AST | None]] = {}
+    for st in tree.body:
+        stmts = [st]
+        if isinstance(st, (ast.If, ast.Try, ast.With, ast.For, ast.While)):
+            stmts = [x for x in ast.walk(st) if isinstance(x, ast.stmt)]
+        for s in stmts:
+            if isinstance(s, (ast.FunctionDef, ast.AsyncFunctionDef, ast.ClassDef)):
+                continue
+            tg: list[ast.AST] = []
+            val: ast.AST | None = None
+            if isinstance(s, ast.Assign):
+                tg, val = list(s.targets), s.value
+            elif isinstance(s, ast.AnnAssign) and s.value is not None:
+                tg, val = [s.target], s.value
+            elif isinstance(s, ast.AugAssign):
+                tg, val = [s.target], ast.List(elts=[], ctx=ast.Load())     # rebinding: counts as mutable
+            elif isinstance(s, (ast.For, ast.With)):
+                val = ast.List(elts=[], ctx=ast.Load())
+                tg = [s.target] if isinstance(s, ast.For) else [i.optional_vars for i in s.items if i.optional_vars is not None]
+            for t in tg:
+                for nm in ast.walk(t):
+                    if isinstance(nm, ast.Name):
+                        bound.setdefault(nm.id, []).append(val if isinstance(t, ast.Name) else ast.List(elts=[], ctx=ast.Load()))
+    mutable_globals = {k for k, vs in bound.items() if len(vs) > 1 or not all(_immutable_value(v) for v in vs)}
+    # the functions to scan: methods of the classes + module-level functions reachable from them by name
+    todo: list[tuple[str, ast.AST]] = []
+    for cname in FS_CLASSES:
+        cls = classes.get(cname)
+        if cls is None:
+            continue
+        for st in cls.body:
+            if isinstance(st, (ast.FunctionDef, ast.AsyncFunctionDef)):
+                todo.append((f'{cname}.{st.name}', st))
+            elif isinstance(st, (ast.Assign, ast.AugAssign)) or (isinstance(st, ast.AnnAssign) and st.value is not None):
+                v = st.value
+                if not _immutable_value(v) or isinstance(st, ast.AugAssign):
+                    for t in (st.targets if isinstance(st, ast.Assign) else [st.target]):
+                        if isinstance(t, ast.Name) and t.id in ('__slots__', '__match_args__', '__annotations__'):
+                            continue              # layout declarations, read by the interpreter only
+                        out.append((cname, ast.unparse(t)[:30], f'class-level mutable value: {ast.unparse(st)[:60]}'))
+    seen_funcs: set[str] = set()
+    i = 0
+    while i < len(todo):
+        where, fn = todo[i]
+        i += 1
+        local = _local_names(fn)
+        for n in ast.walk(fn):
+            if isinstance(n, (ast.Global, ast.Nonlocal)):
+                out.append((where, ','.join(n.names), 'global / nonlocal declaration'))
+            elif isinstance(n, ast.Name) and n.id not in local:
+                if n.id in mutable_globals:
+                    out.append((where, n.id, 'module-level mutable object used'))
+                elif n.id in funcs and n.id not in seen_funcs:
+                    seen_funcs.add(n.id)
+                    todo.append((n.id, funcs[n.id]))
+            elif isinstance(n, ast.Attribute) and isinstance(n.ctx, (ast.Store, ast.Del)):
+                b = n.value
+                if isinstance(b, ast.Attribute) and isinstance(b.value, ast.Name) and b.value.id in ('self', 'cls') \
+                        and any(b.attr == m.name for c in FS_CLASSES if c in classes for m in classes[c].body
+                                if isinstance(m, (ast.FunctionDef, ast.AsyncFunctionDef))):
+                    out.append((where, ast.unparse(n)[:40], 'state stored on a method object'))
+        a = fn.args
+        for dflt in list(a.defaults) + [d for d in a.kw_defaults if d is not None]:
+            if not _immutable_value(dflt):
+                out.append((where, ast.unparse(dflt)[:30], 'mutable default value of a parameter'))
+    return list(dict.fromkeys(out))
+
+
+def _sym_init(fn: ast.FunctionDef, params: dict[str, str], base_init=None) -> dict[str, str | None]:
+    """Straight-line symbolic run of a constructor: what ends up in which attribute of self.
+
+    Values are 'PATH' (the path parameter, also through os.fspath), 'ABS' (os.path.abspath of it), 'CON' (the
+    constrain_path parameter) or None (anything else).  Locals are followed, `super().__init__(x)` /
+    `FileSystem.__init__(self, x)` runs the base constructor with x; any control flow makes every attribute unknown."""
+    env: dict[str, str | None] = dict(params)
+    attrs: dict[str, str | None] = {}
+
+    def ev(n: ast.AST) -> str | None:
+        if isinstance(n, ast.Name):
+            return env.get(n.id)
+        if isinstance(n, ast.Call) and not n.keywords and len(n.args) == 1:
+            d = _dotted(n.func)
+            v = ev(n.args[0])
+            if d in ('os.path.abspath', 'posixpath.abspath') and v in ('PATH', 'ABS'):
+                return 'ABS'                      # abspath is idempotent and calls os.fspath itself
+            if d == 'os.fspath' and v in ('PATH', 'ABS'):
+                return v
+        return None
+
+    for st in fn.body:
+        if isinstance(st, ast.Expr) and isinstance(st.value, ast.Constant):
+            continue
+        if isinstance(st, (ast.Assign, ast.AnnAssign)):
+            if st.value is None:
+                continue
+            v = ev(st.value)
+            for t in (st.targets if isinstance(st, ast.Assign) else [st.target]):
+                if isinstance(t, ast.Name):
+                    env[t.id] = v
+                elif isinstance(t, ast.Attribute) and isinstance(t.value, ast.Name) and t.value.id == 'self':
+                    attrs[t.attr] = v
+                else:
+                    return {'path': None, 'constrain_path': None}
+            continue
+        if isinstance(st, ast.Expr) and isinstance(st.value, ast.Call):
+            c = st.value
+            d = ast.unparse(c.func)
+            args = list(c.args) + [k.value for k in c.keywords if k.arg == 'path']
+            if base_init is not None and d in ('super().__init__', 'super(RawFileSystem, self).__init__') and len(args) == 1:
+                bp = [a.arg for a in base_init.args.args]
+                if len(bp) == 2:
+                    attrs.update(_sym_init(base_init, {bp[1]: ev(args[0])}))
+                    continue
+            if base_init is not None and d == 'FileSystem.__init__' and len(args) == 2 and _dotted(args[0]) == 'self':
+                bp = [a.arg for a in base_init.args.args]
+                if len(bp) == 2:
+                    attrs.update(_sym_init(base_init, {bp[1]: ev(args[1])}))
+                    continue
+        if isinstance(st, ast.Pass):
+            continue
+        return {'path': None, 'constrain_path': None}
+    return attrs
+
+
+def resolve_method_name(raw: ast.ClassDef) -> str:
+    """The method of RawFileSystem that decides containment: the one that raises RootEscapeError (whatever it is called;
+    `_resolve_path` today).  With several such methods `_resolve_path` is taken if it is one of them."""
+    names = [f.name for f in raw.body if isinstance(f, ast.FunctionDef) and f.name != '__init__'
+             and any(_is_raise_escape(x) for x in ast.walk(f) if isinstance(x, ast.stmt))]
+    if '_resolve_path' in names or not names:
+        return '_resolve_path'
+    if len(names) == 1:
+        return names[0]
+    raise TranslateError(f'filesys.py: several methods of RawFileSystem raise RootEscapeError: {names}')
+
+
 def _is_raise_escape(st: ast.stmt) -> bool:
     return (isinstance(st, ast.Raise) and isinstance(st.exc, ast.Call) and _dotted(st.exc.func) == 'RootEscapeError')
 
 
-def _resolve_guard(fn: ast.FunctionDef) -> tuple[str, list[str]]:
-    """Translate the body of _resolve_path; returns (gx text of the raise condition, list of source conditions)."""
-    tr = _Tr('_resolve_path')
-    if [a.arg for a in fn.args.args] != ['self', 'path'] or fn.args.vararg or fn.args.kwarg or fn.args.kwonlyargs:
+def _conj(conds: list[str]) -> str:
+    if not conds:
+        return 'GTrue'
+    c = conds[-1]
+    for x in reversed(conds[:-1]):
+        c = f'(GAnd {x} {c})'
+    return c
+
+
+def _resolve_guard(fn: ast.FunctionDef, helpers: dict | None = None) -> tuple[str, list[str]]:
+    """Translate the body of _resolve_path by symbolic execution of its paths; returns (gx text of the condition under
+    which RootEscapeError is raised, list of the source conditions met).
+
+    The body is a tree of `if` / `else` over pure boolean expressions, assignments of string expressions to locals,
+    `raise RootEscapeError(...)` and `return <the absolute path>`.  Every path through it must end in one of the two;
+    the raise condition is the disjunction, over the paths that raise, of the conjunction of the (possibly negated)
+    tests on the path.  `if c: return abs_path` followed by more statements is therefore the same as `if not c: ...`,
+    an `else: raise` the same as `if not c: raise`, and the names of the locals do not matter: `SAbs` is whatever
+    expression is `os.path.abspath(os.path.join(self.path, path))` after substituting locals."""
+    tr = _Tr('_resolve_path', helpers)
+    params = [a.arg for a in fn.args.args]
+    if len(params) != 2 or fn.args.vararg or fn.args.kwarg or fn.args.kwonlyargs or fn.args.posonlyargs or fn.args.defaults:
         tr.fail(fn, 'unexpected signature')
+    self_name, path_name = params
+    if self_name != 'self':
+        tr.fail(fn, 'first parameter is not self')
+    tr.env[path_name] = PATH_PARAM
     body = [s for s in fn.body if not (isinstance(s, ast.Expr) and isinstance(s.value, ast.Constant))]
     if not body:
         tr.fail(fn, 'empty body')
-    first = body[0]
-    if not (isinstance(first, ast.Assign) and len(first.targets) == 1 and _dotted(first.targets[0]) == 'abs_path'
-            and ast.unparse(first.value) == 'os.path.abspath(os.path.join(self.path, path))'):
-        tr.fail(first, 'first statement is not abs_path = os.path.abspath(os.path.join(self.path, path))')
-    last = body[-1]
-    if not (isinstance(last, ast.Return) and _dotted(last.value) == 'abs_path'):
-        tr.fail(last, 'last statement is not `return abs_path`')
     raise_conds: list[str] = []
     srcs: list[str] = []
+    n_return = [0]
 
-    def block(stmts: list[ast.stmt], conds: list[str], top: bool) -> None:
+    def block(stmts: list[ast.stmt], conds: list[str]) -> list[str] | None:
+        """Run the statements under the path condition `conds`; returns the path condition with which control falls
+        out of the block, or None when every path through it returned or raised."""
         for st in stmts:
-            if isinstance(st, ast.Assign) and len(st.targets) == 1 and isinstance(st.targets[0], ast.Name):
-                name = st.targets[0].id
-                if name in ('abs_path', 'path', 'self'):
-                    tr.fail(st, 'abs_path/path reassigned before the check')
-                tr.env[name] = tr.sx(st.value)
+            if isinstance(st, (ast.Assign, ast.AnnAssign)):
+                targets = st.targets if isinstance(st, ast.Assign) else [st.target]
+                if len(targets) != 1 or not isinstance(targets[0], ast.Name) or st.value is None:
+                    tr.fail(st, 'assignment to something other than one local name')
+                if targets[0].id == self_name:
+                    tr.fail(st, 'self reassigned')
+                tr.assign(targets[0].id, st.value)
             elif isinstance(st, ast.If):
-                if st.orelse:
-                    tr.fail(st, '`else` branch in the containment check')
                 g = tr.gx(st.test)
                 srcs.append(ast.unparse(st.test))
-                block(st.body, conds + [g], False)
+                saved = dict(tr.env)
+                out_t = block(st.body, conds + [g])
+                env_t, tr.env = tr.env, dict(saved)
+                out_f = block(st.orelse, conds + [f'(GNot {g})'])
+                env_f = tr.env
+                if out_t is not None and out_f is not None:
+                    if env_t != env_f:
+                        tr.fail(st, 'locals assigned differently in two branches that both continue')
+                    tr.env = env_t                      # both continue with the same locals: the test is irrelevant
+                elif out_t is not None:
+                    conds, tr.env = out_t, env_t
+                elif out_f is not None:
+                    conds, tr.env = out_f, env_f
+                else:
+                    return None
             elif _is_raise_escape(st):
-                if top:
-                    tr.fail(st, 'unconditional raise')
-                c = conds[-1]
-                for x in reversed(conds[:-1]):
-                    c = f'(GAnd {x} {c})'
-                raise_conds.append(c)
-            elif isinstance(st, ast.Pass):
+                raise_conds.append(_conj(conds))
+                return None
+            elif isinstance(st, ast.Return):
+                if st.value is None or tr.sx(st.value) != 'SAbs':
+                    tr.fail(st, 'returns something other than os.path.abspath(os.path.join(self.path, path))')
+                n_return[0] += 1
+                return None
+            elif isinstance(st, ast.Pass) or (isinstance(st, ast.Expr) and isinstance(st.value, ast.Constant)):
                 pass
             else:
                 tr.fail(st, 'unrecognised statement')
+        return conds
 
-    block(body[1:-1], [], True)
+    if block(body, []) is not None:
+        tr.fail(fn, 'a path through the function ends without return or raise')
+    if not n_return[0]:
+        tr.fail(fn, 'no path returns')
     if not raise_conds:
-        return 'GFalse', srcs
-    g = raise_conds[-1]
-    for x in reversed(raise_conds[:-1]):
-        g = f'(GOr {x} {g})'
+        g = 'GFalse'
+    else:
+        g = raise_conds[-1]
+        for x in reversed(raise_conds[:-1]):
+            g = f'(GOr {x} {g})'
+    if PATH_PARAM in g or JOINED in g:
+        tr.fail(fn, 'the raise condition reads the path argument other than through abspath(join(self.path, path))')
     return g, srcs
 
 
-def _access_sites(cls: ast.ClassDef) -> list[tuple[str, str, int, bool]]:
+def _access_sites(cls: ast.ClassDef, rname: str = '_resolve_path') -> list[tuple[str, str, int, bool]]:
     """Every OS-touching call inside RawFileSystem: (method, callee, line, path argument comes from _resolve_path)."""
     out = []
     for fn in cls.body:
@@ -192,7 +638,7 @@ def _access_sites(cls: ast.ClassDef) -> list[tuple[str, str, int, bool]]:
         for node in ast.walk(fn):
             if isinstance(node, ast.Assign) and len(node.targets) == 1 and isinstance(node.targets[0], ast.Name):
                 v = node.value
-                if isinstance(v, ast.Call) and _dotted(v.func) == 'self._resolve_path':
+                if isinstance(v, ast.Call) and _dotted(v.func) == 'self.' + rname:
                     resolved.add(node.targets[0].id)
         for node in ast.walk(fn):
             if not isinstance(node, ast.Call):
@@ -204,7 +650,7 @@ def _access_sites(cls: ast.ClassDef) -> list[tuple[str, str, int, bool]]:
                 if not node.args:
                     raise TranslateError(f'filesys.py:{node.lineno}: {d} called without positional path')
                 a = node.args[0]
-                ok = (isinstance(a, ast.Call) and _dotted(a.func) == 'self._resolve_path') or \
+                ok = (isinstance(a, ast.Call) and _dotted(a.func) == 'self.' + rname) or \
                      (isinstance(a, ast.Name) and a.id in resolved)
                 out.append((fn.name, d, node.lineno, ok))
             elif d.startswith(('os.', 'shutil.', 'pathlib.', 'io.', 'glob.')) or d in ('Path',):
@@ -238,32 +684,71 @@ def translate() -> tuple[str, dict]:
     if raw is None:
         raise TranslateError('filesys.py: class RawFileSystem not found')
     init = resolve = None
+    rname = resolve_method_name(raw)
     for f in raw.body:
         if isinstance(f, ast.FunctionDef) and f.name == '__init__':
             init = f
-        if isinstance(f, ast.FunctionDef) and f.name == '_resolve_path':
+        if isinstance(f, ast.FunctionDef) and f.name == rname:
             resolve = f
     if init is None or resolve is None:
         raise TranslateError('filesys.py: RawFileSystem.__init__/_resolve_path not found')
-    # root = abspath(path) ?
-    root_abs = any(isinstance(x, ast.Call) and ast.unparse(x) == 'super().__init__(os.path.abspath(path))'
-                   for x in ast.walk(init))
-    path_stores = [x for f in raw.body if isinstance(f, ast.FunctionDef) for x in ast.walk(f)
+    # what the constructor leaves in self.path / self.constrain_path (locals followed, base constructor run symbolically)
+    base_init = None
+    for n in tree.body:
+        if isinstance(n, ast.ClassDef) and n.name == 'FileSystem':
+            for f in n.body:
+                if isinstance(f, ast.FunctionDef) and f.name == '__init__':
+                    base_init = f
+    ip = [a.arg for a in init.args.args + init.args.kwonlyargs]
+    stored = _sym_init(init, {ip[1]: 'PATH', 'constrain_path': 'CON'} if len(ip) >= 3 and 'constrain_path' in ip[2:] else {},
+                       base_init)
+    root_abs = stored.get('path') == 'ABS'
+    path_stores = [x for f in raw.body if isinstance(f, ast.FunctionDef) and f.name != '__init__' for x in ast.walk(f)
                    if isinstance(x, (ast.Assign, ast.AugAssign, ast.AnnAssign))
                    for t in (x.targets if isinstance(x, ast.Assign) else [x.target]) if _dotted(t) == 'self.path']
-    # self.constrain_path = constrain_path (the constructor's parameter, unchanged), assigned nowhere else in the class
+    # self.constrain_path = the constructor's parameter, unchanged; assigned nowhere else in the class
     con_stores = [(f.name, x) for f in raw.body if isinstance(f, ast.FunctionDef) for x in ast.walk(f)
                   if isinstance(x, (ast.Assign, ast.AugAssign, ast.AnnAssign))
                   for t in (x.targets if isinstance(x, ast.Assign) else [x.target]) if _dotted(t) == 'self.constrain_path']
-    init_params = {a.arg for a in init.args.args + init.args.kwonlyargs}
-    con_from_param = any(fn == '__init__' and isinstance(x, ast.Assign) and isinstance(x.value, ast.Name)
-                         and x.value.id == 'constrain_path' and 'constrain_path' in init_params for fn, x in con_stores)
-    con_elsewhere = any(fn != '__init__' for fn, _ in con_stores) or sum(1 for fn, _ in con_stores if fn == '__init__') != 1
-    guard, srcs = _resolve_guard(resolve)
-    sites = _access_sites(raw)
+    con_from_param = stored.get('constrain_path') == 'CON'
+    con_elsewhere = any(fn != '__init__' for fn, _ in con_stores)
+    helpers: dict = {}
+    nbound: dict[str, int] = {}
+    consts: dict[str, ast.AST] = {}
+    for n in tree.body:
+        for t in (n.targets if isinstance(n, ast.Assign) else [n.target] if isinstance(n, (ast.AnnAssign, ast.AugAssign)) else []):
+            for nm in ast.walk(t):
+                if isinstance(nm, ast.Name):
+                    nbound[nm.id] = nbound.get(nm.id, 0) + 1
+        if isinstance(n, (ast.Assign, ast.AnnAssign)) and n.value is not None:
+            t = n.targets[0] if isinstance(n, ast.Assign) and len(n.targets) == 1 else getattr(n, 'target', None)
+            if isinstance(t, ast.Name) and (isinstance(n.value, ast.Constant) and isinstance(n.value.value, str)
+                                            or _dotted(n.value) in ('os.sep', 'os.path.sep')):
+                consts[t.id] = n.value
+    helpers['=consts'] = {k: v for k, v in consts.items() if nbound.get(k) == 1}
+    for n in tree.body:
+        if isinstance(n, ast.FunctionDef):
+            helpers[n.name] = n
+        elif isinstance(n, ast.ClassDef) and n.name == 'FileSystem':
+            helpers.update({'self.' + f.name: f for f in n.body if isinstance(f, ast.FunctionDef)})
+    helpers.update({'self.' + f.name: f for f in raw.body if isinstance(f, ast.FunctionDef) and f.name != rname})
+    guard, srcs = _resolve_guard(resolve, helpers)
+    # the census of access sites is taken from the data-flow interpreter of translate/c18_ops.py (helper methods inlined,
+    # locals followed); only if that one cannot read the class the syntactic census below is used
+    try:
+        from translate import c18_ops
+        by_site: dict[tuple, bool] = {}
+        for m, c, _b, pexp, line in c18_ops.translate()[1]['raw_sites']:
+            by_site[(m, c, line)] = by_site.get((m, c, line), True) and pexp.startswith('(PResolve ')
+        sites = [(m, c, line, ok) for (m, c, line), ok in by_site.items()]
+    except TranslateError:
+        sites = _access_sites(raw, rname)
     if not sites:
         raise TranslateError('filesys.py: RawFileSystem has no recognised file-system access site')
     up = _unify_path_shape(ast.parse(src_text('packlist.py')))
+    # anything between a caller of _resolve_path / __init__ and the bodies translated above (seeded c18_4: lru_cache)
+    wrappers = [w for w in wrapper_census(tree) if w[1] in (rname, '__init__', '__getattribute__', '__getattr__')
+                and w[0] in ('RawFileSystem', 'FileSystem') or w[2].startswith('subclass') and w[1] == rname]
     lines = [
         '(* GENERATED by translate/c18_guard.py from /repo/src/srctools/filesys.py, packlist.py. Do not edit. *)',
         'From Coq Require Import NArith List String.', 'From SV Require Import SM.PathNorm.',
@@ -273,6 +758,9 @@ def translate() -> tuple[str, dict]:
         f'Definition root_is_abspath : bool := {"true" if root_abs else "false"}.',
         f'Definition root_reassigned_in_class : bool := {"true" if path_stores else "false"}.',
         f'Definition constrain_flag_is_the_constructor_argument : bool := {"true" if con_from_param and not con_elsewhere else "false"}.',
+        '(* decorators / rebindings / attribute hooks standing between a caller and the body of _resolve_path, __init__ *)',
+        'Definition resolve_path_wrappers : list (string * string * string) := [',
+        ';\n'.join(f'  ("{c}", "{m}", "{_coq_ident(w)}")' for c, m, w in wrappers), '].',
         '(* every file-system access of RawFileSystem: (method, callee, path argument is a _resolve_path result) *)',
         'Definition access_sites : list (string * string * bool) := [',
         ';\n'.join(f'  ("{m}", "{c}", {"true" if ok else "false"})' for m, c, _, ok in sites),
@@ -280,8 +768,8 @@ def translate() -> tuple[str, dict]:
         '',
     ]
     side = {'raise_if': guard, 'source_conditions': srcs, 'root_is_abspath': root_abs,
-            'access_sites': [list(s) for s in sites], 'unify_path': up,
-            'resolve_digest': ast_digest(resolve), 'line': resolve.lineno}
+            'access_sites': [list(s) for s in sites], 'unify_path': up, 'resolve_path_wrappers': [list(w) for w in wrappers],
+            'resolve_digest': ast_digest(resolve), 'line': resolve.lineno, 'resolve_method': rname}
     return '\n'.join(lines), side
 
 
